@@ -12,27 +12,52 @@ from . import _c08_oracle as O
 
 META = dict(
     level="exploration",
-    rule="Valid tree sequences by construction (vf/gen.py ts_spec: <=9 nodes, <=4 trees, <=5 sites, "
+    rule="Valid tree sequences by construction (vf/gen.py ts_spec: <=10 nodes, <=4 trees, <=5 sites, "
     "multiallelic/recurrent/back mutations, several roots, internal and isolated samples, dead "
-    "branches, gaps; dyadic coordinates and times; genomes longer than 1024 rescaled by a power of "
-    "two) x weights / sample sets / index tuples x windows (None, 'trees', 'sites', arbitrary lists "
-    "cutting trees, ending on sites, containing no site) x mode x polarised x span_normalise. "
-    "Oracles: (A) literal evaluation of the documented general_stat definition per allele / "
-    "branch / node from the positional table model; (B) the named statistics through the summary "
-    "functions printed in docs/stats.md and the docstring formulas of the derived ones; (C) "
-    "first-principles definitions (pairwise differences from oracle genotypes, tabulated AFS, "
-    "pairwise path lengths, GNN / mean_descendants / pair coalescence docstrings, r^2 from "
-    "genotypes, KC vectors, RF clade sets); (D) span-weighted combination over a random window "
-    "refinement; (E) num_threads and Python threads against the serial result.",
+    "branches, gaps; dyadic coordinates and times, no 'huge' times; genomes longer than 1024 are "
+    "rescaled by a power of two) x weights / sample sets (disjoint and overlapping, singletons) / "
+    "index tuples x windows (None, 'trees', 'sites', arbitrary lists cutting trees, ending on sites, "
+    "containing no site; partial windows for divergence_matrix and genetic_relatedness_vector) x "
+    "mode x polarised x span_normalise x centre/proportion. Oracles (vf/props/_c08_oracle.py): "
+    "(A) literal evaluation of the documented general_stat / sample_count_stat definition per allele, "
+    "branch and node from the positional table model; (B) diversity, segregating_sites, Y1-3, "
+    "divergence incl. (j,j), f2-4, genetic_relatedness (+weighted, +vector), trait_covariance / "
+    "correlation through the summary functions printed in docs/stats.md, Tajimas_D / Fst / "
+    "proportion=True / genetic_relatedness_matrix from their docstring formulas, exact output "
+    "shapes under the dimension-dropping rules 1-4; (C) enumeration of sample tuples over "
+    "allele-carrier sets and branch descendant sets (diversity, divergence, Y*, f*, relatedness), "
+    "pairwise genotype differences, distinct alleles - 1, direct AFS tabulation (polarised exact, "
+    "folded: 1-D exact, joint: entry+mirror and empty upper half), least squares per allele/branch "
+    "for trait_linear_model, divergence_matrix, GNN / mean_descendants / pair_coalescence_counts "
+    "by their docstrings, r^2 from oracle genotypes, Kendall-Colijn vectors, clade-set symmetric "
+    "difference; (D) every additive statistic re-evaluated on a random refinement of the windows "
+    "and recombined span-weighted; (E) num_threads in {1,2,3,8} of divergence_matrix / "
+    "genetic_relatedness_matrix / genealogical_nearest_neighbours against num_threads=0, and 2-8 "
+    "Python threads running ten statistics on one shared larger tree sequence, bitwise equal to "
+    "the serial results (thorough tier on the ASan build).",
     assumptions=[
         "reference model vf/model.py (positional parent map, nearest-mutation allele per sample)",
-        "floating point: dyadic inputs, comparison |a-b| <= 1e-12 + 1e-9*max(1,|a|,|b|); values whose "
-        "exact definition is 0/0 may be nan or 0 (docs/stats.md 'division by zero')",
-        "size bounds: <=9 nodes, <=4 elementary intervals, <=5 sites, <=4 sample sets",
-        "thread interleavings are only sampled (thread count x repetition), not enumerated",
+        "floating point: dyadic inputs, comparison |a-b| <= 1e-12 + 1e-9*max(1,|a|,|b|) (1e-7 for the "
+        "trait statistics); a column whose printed formula has a zero denominator must hold nan or 0 "
+        "(docs/stats.md 'division by zero'); a derived ratio with an exactly zero denominator must be "
+        "non-finite in site/node mode and is not asserted in branch mode (running-sum residue)",
+        "not asserted: the value f(0) contributes for an allelic state carried by no sample when f is "
+        "not strict; the tie-breaking of joint-AFS folding; the diagonal of divergence_matrix for "
+        "singleton sets; which denominator mean_descendants uses when the sets do not cover the "
+        "samples (either documented reading accepted); pair_coalescence_counts with nested sample "
+        "nodes and its span normalisation when a tree has no edges; Tajimas_D for n<4 or a radicand "
+        "within 1e-6 of zero; trait_linear_model when a genotype is within 1e-6 of the covariate span",
+        "input validation kept out of the domain: fewer sample sets than the arity of a k-way "
+        "statistic, flat sample-set lists for allele_frequency_spectrum / genetic_relatedness_matrix, "
+        "genetic_relatedness_vector in site/node mode (rejected by the library), LdCalculator on sites "
+        "without exactly one non-silent mutation, KC/RF on multi-rooted trees or trees with unary nodes",
+        "size bounds: <=10 nodes, <=4 elementary intervals, <=5 sites, <=4 sample sets (thread "
+        "sub-check: 8-40 samples x 2-24 trees)",
+        "thread interleavings are only sampled (thread count x repetition x machine noise), not "
+        "enumerated; data-race freedom is not proven",
     ],
     technique="property-based testing (Hypothesis) against naive definitional oracles + metamorphic "
-    "window refinement + thread-count differential",
+    "window refinement + thread-count / concurrent-vs-serial differential",
     engines=["hypothesis-runner"],
 )
 
@@ -404,14 +429,12 @@ def expected_named(spec, case, windows):
     k = O.ARITY[stat]
     if k == 1:
         idx = None
-        ncols = len(sets)
     else:
         idx = case["indexes"]
         if case["form"] == "single":
             idx = [idx]
         elif case["form"] == "none":
             idx = [list(range(k))]
-        ncols = len(idx)
     n = np.array([len(s) for s in sets], dtype=float)
     if stat in ADDITIVE and stat != "genetic_relatedness":
         exp, deg = O.sample_count_named(spec, stat, sets, idx, windows, mode, sn)
@@ -593,7 +616,7 @@ def run_afs(case, ctx):
     gfine = call(fine)
     check(gfine, fine, "(refined windows)")
     ctx.close(got, O.combine_refinement(gfine, fine, coarse, sn), f"afs[{mode}] refinement")
-    if mode == "site" and draw_node_mode(case):
+    if mode == "site" and len(sets) == 1:
         try:
             ts.allele_frequency_spectrum(sets, mode="node")
         except ValueError:
@@ -602,10 +625,6 @@ def run_afs(case, ctx):
             pass
         else:
             ctx.fail("afs node mode", "mode='node' did not raise (documented: not supported)")
-
-
-def draw_node_mode(case):
-    return len(case["sets"]) == 1
 
 
 # ------------------------------------------------------------------ weighted statistics
@@ -835,7 +854,6 @@ THREADS = [0, 0, 1, 2, 3, 8]
 def matrix_case(draw):
     spec = draw(stat_spec(min_samples=draw(st.sampled_from([2, 3, 4, 5, 6])), max_nodes=10))
     smp = model.samples(spec)
-    L = F(spec["L"])
     case = dict(spec=spec)
     case["stat"] = draw(st.sampled_from(["divergence_matrix", "genetic_relatedness_matrix"]))
     case["mode"] = draw(st.sampled_from(["site", "branch"] + (
@@ -1446,9 +1464,9 @@ def run_shared(case, ctx):
 
 
 FLOORS_GENERAL_STAT = {'mode=branch': 0.1, 'mode=node': 0.1, 'window_cuts_tree': 0.15, 'multiallelic_site': 0.1, 'multi_root': 0.15, 'strict_f': 0.3, 'sample_count_stat': 0.1, 'window_ends_on_site': 0.05, 'window_without_site': 0.07, 'polarised': 0.1, 'internal_sample_used': 0.1, 'strict_rejects': 0.04}
-FLOORS_NAMED = {'stat=diversity': 0.03, 'stat=segregating_sites': 0.03, 'stat=Y1': 0.03, 'stat=Tajimas_D': 0.03, 'stat=divergence': 0.03, 'stat=genetic_relatedness': 0.03, 'stat=Y2': 0.03, 'stat=f2': 0.03, 'stat=Y3': 0.03, 'stat=f3': 0.03, 'stat=f4': 0.03, 'stat=Fst': 0.03, 'window_cuts_tree': 0.2, 'multiallelic_site': 0.1, 'overlapping_sets': 0.2, 'degenerate_column': 0.05, 'form=single': 0.04, 'form=none': 0.06, 'scalar_result': 0.02, 'multi_root': 0.3, 'internal_sample_used': 0.3}
+FLOORS_NAMED = {'stat=diversity': 0.02, 'stat=segregating_sites': 0.02, 'stat=Y1': 0.02, 'stat=Tajimas_D': 0.02, 'stat=divergence': 0.02, 'stat=genetic_relatedness': 0.02, 'stat=Y2': 0.02, 'stat=f2': 0.02, 'stat=Y3': 0.02, 'stat=f3': 0.02, 'stat=f4': 0.02, 'stat=Fst': 0.02, 'window_cuts_tree': 0.2, 'multiallelic_site': 0.1, 'overlapping_sets': 0.2, 'degenerate_column': 0.05, 'form=single': 0.04, 'form=none': 0.06, 'scalar_result': 0.02, 'multi_root': 0.3, 'internal_sample_used': 0.3}
 FLOORS_AFS = {'mode=branch': 0.1, 'polarised': 0.1, 'folded': 0.3, 'joint': 0.12, 'afs_nonzero': 0.25, 'window_cuts_tree': 0.2, 'multiallelic_site': 0.1}
-FLOORS_WEIGHTED = {'stat=trait_covariance': 0.07, 'stat=trait_correlation': 0.07, 'stat=trait_linear_model': 0.07, 'stat=genetic_relatedness_weighted': 0.07, 'stat=genetic_relatedness_vector': 0.07, 'focal_nodes': 0.01, 'window_cuts_tree': 0.2}
+FLOORS_WEIGHTED = {'stat=trait_covariance': 0.05, 'stat=trait_correlation': 0.05, 'stat=trait_linear_model': 0.05, 'stat=genetic_relatedness_weighted': 0.05, 'stat=genetic_relatedness_vector': 0.05, 'focal_nodes': 0.01, 'window_cuts_tree': 0.2}
 FLOORS_MATRIX_THREADS = {'threads>1': 0.12, 'partial_windows': 0.04, 'relatedness_matrix_asserted': 0.1, 'divergence_matrix/branch': 0.08, 'form=lists': 0.15, 'window_cuts_tree': 0.2}
 FLOORS_GNN_MEAN_DESCENDANTS = {'gnn_nonzero': 0.25, 'focal_in_reference': 0.3, 'focal_not_in_reference': 0.2, 'non_sample_reference': 0.15, 'num_threads=8': 0.03, 'threads>focal': 0.08, 'mean_descendants_denominators_coincide': 0.15, 'multi_tree': 0.2}
 FLOORS_PAIR_COALESCENCE = {'coalescences': 0.2, 'time_windows=breaks': 0.2, 'pair_normalise': 0.1, 'span_normalise': 0.1, 'multi_tree': 0.25}
@@ -1463,19 +1481,21 @@ SUBCHECKS = [
     SubCheck("C08.afs", run_afs, strategy=afs_case, quick=2000, thorough=60000, rule=NT, floors=FLOORS_AFS),
     SubCheck("C08.weighted", run_weighted, strategy=weighted_case, quick=2500, thorough=75000, rule=NT,
              floors=FLOORS_WEIGHTED, classify=classify_weighted),
-    SubCheck("C08.matrix_threads", run_matrix, strategy=matrix_case, quick=2000, thorough=60000, rule=NT, floors=FLOORS_MATRIX_THREADS),
+    SubCheck("C08.matrix_threads", run_matrix, strategy=matrix_case, quick=2000, thorough=60000, rule=NT,
+             floors=FLOORS_MATRIX_THREADS, thorough_flavour="asan"),
     SubCheck("C08.gnn_mean_descendants", run_gnn, strategy=gnn_case, quick=1500, thorough=45000,
-             rule=">=1 edge and (>=2 trees or >=2 roots or an internal sample)", floors=FLOORS_GNN_MEAN_DESCENDANTS),
+             rule=">=1 edge and (>=2 trees or >=2 roots or an internal sample)",
+             floors=FLOORS_GNN_MEAN_DESCENDANTS, thorough_flavour="asan"),
     SubCheck("C08.pair_coalescence", run_coal, strategy=coal_case, quick=1500, thorough=45000,
              rule="some pair coalesces and (>=2 trees or >=2 roots or a polytomy)", floors=FLOORS_PAIR_COALESCENCE),
     SubCheck("C08.ld_r2", run_ld, strategy=ld_case, quick=1000, thorough=30000,
              rule=">=2 single-mutation sites and >=1 edge", floors=FLOORS_LD_R2),
     SubCheck("C08.kc_rf", run_dist, strategy=dist_case, quick=800, thorough=24000,
              rule=">=3 samples (two tree sequences of single-rooted trees without unary nodes)", floors=FLOORS_KC_RF),
-    SubCheck("C08.shared_threads", run_shared, strategy=shared_case, quick=200, thorough=6000,
+    SubCheck("C08.shared_threads", run_shared, strategy=shared_case, quick=200, thorough=3000,
              rule=">=2 trees; K in {2,3,4,8} Python threads each running 10 statistics (6 of them release "
              "the GIL) 1-4 times on one shared tree sequence of 8-40 samples x 2-24 trees; bitwise equal to "
-             "the serial results", floors=FLOORS_SHARED_THREADS),
+             "the serial results", floors=FLOORS_SHARED_THREADS, thorough_flavour="asan"),
 ]
 
 _PROBE_GRV = dict(
